@@ -20,8 +20,14 @@ def check_path(kw, path):
     double = None            # how the first overlap came about
     prev_live = 0
     stale = False
+    outside_regime = False
     for i, e in enumerate(path):
         before = d.state()
+        # the triggers of the two known findings (exactly the guard of C12_at_most_one_outside_known_findings):
+        # after one of them the single-connection regime, and with it the timer obligation below, is void
+        if (e == ('fire', 'TConnectRetry') or e[0] == 'start' or (e[0] == 'boot' and i > 0)) and \
+                any(c[0] == 0 for c in before[7]) and d.enabled(e):
+            outside_regime = True
         r = d.apply(e)
         st = r[2]
         conns = st[7]
@@ -48,7 +54,7 @@ def check_path(kw, path):
         # proof obligation TQ of the single-connection invariant, as an oracle: outside a session neither
         # the hold nor the keepalive timer is pending (their expiry in Connect re-arms the restart timer
         # without aborting the attempt in flight, so a second attempt overlaps it)
-        if st[0] in (1, 2, 3) and (st[6][1][0] or st[6][2][0]) and not stale:
+        if st[0] in (1, 2, 3) and (st[6][1][0] or st[6][2][0]) and not stale and not outside_regime:
             stale = True
             out.append({'what': 'hold/keepalive timer of the ended session still pending in state %d after %r '
                                 '(its expiry in Connect starts a second attempt over the one in flight)'
